@@ -170,6 +170,13 @@ def call_shapes(rng, params, cap):
                     kwargs.update({p[0]: val(p[0]) for p in ko if not (omit_defaults and p[3] is not None)})
                     kwargs.update({f"x{j}": val("extra", j) if ann_of.get("extra") in COMPOSITE else f"{3 + j}" for j in range(nvk)})
                     shapes.append((tuple(args), kwargs))
+    # with **kwargs, a keyword named like a parameter that CANNOT be passed by keyword (a positional-only one, the variadic ones
+    # themselves) is an extra keyword: it belongs to **kwargs and converts per the **kwargs annotation
+    if has_vk:
+        clash = [p[0] for p in po] + [p[0] for p in params if p[1] in ("va", "vk")]
+        for args, kwargs in [s_ for s_ in shapes if len(s_[0]) >= len(po)][:: max(1, len(shapes) // 4)][:4]:
+            for j, n in enumerate(rng.sample(clash, min(2, len(clash)))):
+                shapes.append((args, {**kwargs, n: val("extra", j) if ann_of.get("extra") in COMPOSITE else f"{3 + j}"}))
     # rejected shapes
     base_args, base_kwargs = shapes[0] if shapes else ((), {})
     rej = [
